@@ -68,7 +68,8 @@ Ltac nth_arith :=
   try reflexivity; try lia;
   try (f_equal; lia);
   try (symmetry; apply nth_error_None; len_norm; lia);
-  try (apply nth_error_None; len_norm; lia).
+  try (apply nth_error_None; len_norm; lia);
+  try (etransitivity; [apply nth_error_None; len_norm; lia | symmetry; apply nth_error_None; len_norm; lia]).
 
 Ltac list_ext :=
   apply nth_error_ext; let k := fresh "k" in intro k; nth_norm; split_ifs; nth_arith.
